@@ -681,6 +681,10 @@ class FA:
                 self.attr_store(self.av(t.value), t.attr, v)
             elif isinstance(t, ast.Subscript):
                 self.store(self.av(t.value), 'store')
+        elif isinstance(st, ast.Delete):
+            for t in st.targets:
+                if isinstance(t, ast.Subscript):
+                    self.store(self.av(t.value), 'store')       # del x[...] changes the container that x stands for
         elif isinstance(st, ast.AnnAssign):
             if st.value is not None:
                 self.assign_to(st.target, self.av(st.value))
